@@ -55,6 +55,7 @@ func main() {
 		}
 	}
 	r := report.New(id, tier, c.Level)
+	r.GoTest = checks.GoTestFor(id)
 	c.Run(r)
 	if f := os.Getenv("VERIF_MEMPROF"); f != "" {
 		if fh, err := os.Create(f); err == nil {
